@@ -412,7 +412,14 @@ def check_memory_budget(P, R):
             continue
         tot = rets_[0].ast.value.id
         szdefs = set(rd.at(cn, sz.id))
-        counted = [n for n in g.nodes for d in rd.gen.get(n, []) if d.name == tot and d.value is not None and sz.id in names_loaded(d.value)
+        # the total may travel through plain copies (`consumed = consumed__i1`) before it is returned
+        tots = {tot}
+        for _ in range(4):
+            for n_ in g.nodes:
+                for d in rd.gen.get(n_, []):
+                    if d.name in tots and d.value is not None and isinstance(d.value, ast.Name):
+                        tots.add(d.value.id)
+        counted = [n for n in g.nodes for d in rd.gen.get(n, []) if d.name in tots and d.value is not None and sz.id in names_loaded(d.value)
                    and set(rd.at(n, sz.id)) == szdefs]
         ok = bool(counted) and all(not (g.can_reach(g.entry, cn, avoid_nodes=counted) and g.can_reach(cn, r, avoid_nodes=counted)) for r in rets_)
         R.ob('C13.e', f, c, ok, text=f'{short(c)}: its size is added to the total `{tot}` returned to the caller', detail='' if ok else
